@@ -743,4 +743,9 @@ class ExtParam(NumParam):
         if self.vtype == str:
             return
 
+        # values retrieved from an index field in an earlier set-up can be strings even if `vtype` was not
+        # declared as `str`; they are retrieved again by `link_external`, so there is nothing to convert
+        if len(self.v) > 0 and isinstance(self.v[0], str):
+            return
+
         NumParam.to_array(self)
